@@ -84,9 +84,230 @@ def ctBlocksOk (prog : Program) (hints : List FuncHints) (al : AllowedSites) (ch
   | [] => true
   | b :: bs => b.instrs.all (ctInstrOk prog hints al checked f h) && ctBlocksOk prog hints al checked f h bs
 
+/-! ### the strengthened labelling the soundness proof works with (side condition of `ctOkSimple`)
+
+The semantics of `Sem.lean` is untyped (a register holds whatever flat scalars were put there) and the
+top-level arguments of `NIStatement` are arbitrary, so "address-like values are public by definition"
+cannot be read as *equal in both runs*: an address-kind register that is copied out of a secret
+aggregate (`Extract` of the pointer component of `(*Element, int)`) is only known to be scalar-wise
+`RelH`-related.  This is harmless wherever the value is *used as an address* (the semantics
+pattern-matches on `.ptr`/`.slice`/…, and `RelH` forces address-class scalars to be equal), but it must
+not flow into a public data value or a leak point.  The proof therefore works with the labelling
+
+* `hi = secretRegs ||| weakRegs`: a register is *not known to be equal* if the hint says secret or if its
+  kind is pointer-like / `none` and it is defined by a copying instruction (`weakRegs`);
+* `paramHi`: a parameter is known to be equal only if it is explicitly public and not pointer-like;
+
+and `sInstrOk` re-checks every instruction under that labelling (same sinks as `tRule`, same notion of
+allowed site), together with the shape conditions without which `NIStatement` is false for artificial
+programs (see `NI/STATUS.md`): a declassified shift count is unsigned, the index of `Index` and the
+lengths of `MakeSlice` are public, the operand of `Panic` is public, arguments for public parameters are
+public, pointer-like results are public operands of `Return` unless the callee's result is secret,
+`Once.Do` is called with a function constant, and both targets of a declassified `If` can be entered
+(their phis read constants or registers defined earlier in the same block). -/
+
+def weakKind (k : VK) : Bool :=
+  match k with
+  | .none => true
+  | k => k.pointerish
+
+/-- instructions whose value is computed from address-class scalars only (always public) -/
+def opAlwaysPublic : Op → Bool
+  | .alloc _ _ | .sliceToArrayPointer _ | .fieldAddr _ _ _ | .indexAddr _ _ _ | .slice _ _ _ _ _
+  | .makeSlice _ _ | .makeInterface _ => true
+  | _ => false
+
+def weakMaskI : List Instr → Nat → Nat
+  | [], m => m
+  | i :: is, m => weakMaskI is (if weakKind i.k && !opAlwaysPublic i.op then m ||| (1 <<< i.id) else m)
+
+def weakMaskB : List Block → Nat → Nat
+  | [], m => m
+  | b :: bs, m => weakMaskB bs (weakMaskI b.instrs m)
+
+/-- registers of pointer-like (or no) kind that are defined by a copying instruction, as a bit set -/
+def Func.weakRegs (f : Func) : Nat := weakMaskB f.blocks 0
+
+/-- the parameter is not known to be equal in the two runs -/
+def paramHi (ps : List Param) (pub : Nat) (i : Nat) : Bool :=
+  match ps[i]? with
+  | some p => p.k.pointerish || !pub.testBit i
+  | none => true
+
+structure SCtx where
+  prog : Program
+  hints : List FuncHints
+  f : Func
+  h : FuncHints
+  /-- `secretRegs ||| weakRegs` -/
+  hi : Nat
+
+def SCtx.lab (c : SCtx) : Opnd → Bool
+  | .reg id => c.hi.testBit id
+  | .param i => paramHi c.f.params c.h.publicParams i
+  | .freeVar _ => true
+  | _ => false
+
+/-- constants that evaluate to one address-class scalar -/
+def Opnd.isAddrConst : Opnd → Bool
+  | .nil _ | .global _ | .fn _ => true
+  | _ => false
+
+/-- demanded label of the defined value, violated sinks, further conditions -/
+structure SOut where
+  req : Bool
+  sites : List Nm
+  ok : Bool
+
+def ssink (c : SCtx) (k : Nm) (o : Opnd) : List Nm := if c.lab o then [k] else []
+
+def ssinkO (c : SCtx) (k : Nm) : Option Opnd → List Nm
+  | some o => if c.lab o then [k] else []
+  | none => []
+
+/-- the shift count of the instruction is of an unsigned type (a shift cannot panic) -/
+def countUnsigned (p : Program) (i : Instr) : Bool :=
+  match intOfTy p (i.opTys.tail.headD 0) with
+  | some (_, false) => true
+  | _ => false
+
+def sBinop (c : SCtx) (i : Instr) (op : BinOp) (xk : VK) (x y : Opnd) : SOut :=
+  match xk with
+  | .ptr | .slice | .func | .iface =>
+    -- identity comparison; against an address constant the outcome is determined by address-class scalars
+    ⟨(c.lab x && !y.isAddrConst) || (c.lab y && !x.isAddrConst), [], true⟩
+  | _ =>
+    let s := c.lab x || c.lab y
+    match op with
+    | .shl | .shr => ⟨s, if y.isConst then [] else ssink c K.shiftCount y, y.isConst || !c.lab y || countUnsigned c.prog i⟩
+    | .quo | .rem => ⟨s, if s then [K.divmod] else [], true⟩
+    | .eq | .ne => ⟨s, if s && xk.cmpLeaky then [K.aggCompare] else [], true⟩
+    | _ => ⟨s, [], true⟩
+
+/-- an argument for a parameter that the callee assumes equal must be known equal -/
+def argsOk (lab : Opnd → Bool) (ps : List Param) (pub : Nat) : List Opnd → Nat → Bool
+  | [], _ => true
+  | a :: as, j => (paramHi ps pub j || !lab a) && argsOk lab ps pub as (j + 1)
+
+/-- the result of a call of `f` is not known to be equal -/
+def resHi (f : Func) (h : FuncHints) : Bool := h.secretResult || f.results.any (·.pointerish)
+
+def sCallFn (c : SCtx) (g : Nat) (args : List Opnd) : SOut :=
+  match c.prog.funcs[g]?, c.hints[g]? with
+  | some gf, some gh => ⟨resHi gf gh, [], argsOk c.lab gf.params gh.publicParams args 0⟩
+  | _, _ => ⟨true, [K.badReference], false⟩
+
+def onceArgsOk : List Opnd → Bool
+  | [_, .fn _] => true
+  | _ => false
+
+def sCallExtern (c : SCtx) (n : Nm) (args : List Opnd) : SOut :=
+  match externModel n with
+  | some .join => ⟨anyL c.lab args, [], true⟩
+  | some .secret => ⟨true, [], true⟩
+  | some .pub => ⟨false, [], n != Ext.onceDo || onceArgsOk args⟩
+  | none => ⟨true, [K.externCall], false⟩
+
+def sCall (c : SCtx) (callee : Callee) (args : List Opnd) : SOut :=
+  match callee with
+  | .fn g => sCallFn c g args
+  | .builtin b => if b == Ext.len || b == Ext.cap || b == Ext.copy then ⟨false, [], true⟩ else ⟨true, [K.externCall], false⟩
+  | .extern n => sCallExtern c n args
+  | .dynamic _ => ⟨true, [K.externCall], false⟩
+  | .invoke _ _ => ⟨true, [K.externCall], false⟩
+
+def sPhi (c : SCtx) : List (Nat × Opnd) → Bool
+  | [] => false
+  | e :: es => c.lab e.2 || sPhi c es
+
+/-- a `Return` operand that is not known equal is allowed for a secret result or a pointer-like result -/
+def retOk (c : SCtx) : List Opnd → List VK → Bool
+  | [], _ => true
+  | v :: vs, ks =>
+    (!c.lab v || c.h.secretResult || (match ks with | k :: _ => k.pointerish | [] => false)) && retOk c vs ks.tail
+
+def sRule (c : SCtx) (i : Instr) : SOut :=
+  match i.op with
+  | .alloc _ _ => ⟨false, [], true⟩
+  | .binop op xk x y => sBinop c i op xk x y
+  | .unop _ x => ⟨c.lab x, [], true⟩
+  | .load _ => ⟨true, [], true⟩
+  | .call callee args => sCall c callee args
+  | .changeType x => ⟨c.lab x, [], true⟩
+  | .convert _ x => ⟨c.lab x, [], true⟩
+  | .sliceToArrayPointer _ => ⟨false, [], true⟩
+  | .extract x _ => ⟨c.lab x, [], true⟩
+  | .fieldAddr _ _ _ => ⟨false, [], true⟩
+  | .field x _ _ => ⟨c.lab x, [], true⟩
+  | .indexAddr _ _ ix => ⟨false, ssink c K.index ix, true⟩
+  | .index x ix => ⟨c.lab x, [], !c.lab ix⟩
+  | .lookup _ _ => ⟨false, [], true⟩
+  | .slice _ _ lo hi mx => ⟨false, ssinkO c K.sliceBound lo ++ ssinkO c K.sliceBound hi ++ ssinkO c K.sliceBound mx, true⟩
+  | .makeSlice l cp => ⟨false, [], !c.lab l && !c.lab cp⟩
+  | .makeClosure _ _ => ⟨false, [], true⟩
+  | .makeInterface _ => ⟨false, [], true⟩
+  | .phi es => ⟨sPhi c es, [], true⟩
+  | .store _ _ _ => ⟨false, [], true⟩
+  | .if cnd _ _ => ⟨false, ssink c K.branch cnd, true⟩
+  | .jump _ => ⟨false, [], true⟩
+  | .ret vs => ⟨false, [], retOk c vs c.f.results⟩
+  | .panic x => ⟨false, [], !c.lab x⟩
+  | .unsupported _ _ => ⟨false, [], true⟩
+
+def sInstrOk (c : SCtx) (al : AllowedSites) (i : Instr) : Bool :=
+  match sRule c i with
+  | ⟨req, sites, ok⟩ => sites.all (siteOk al c.f.name) && ok && (!req || c.hi.testBit i.id)
+
+/-- instructions that, when they continue, have written their register -/
+def immDef : Op → Bool
+  | .alloc _ _ | .binop _ _ _ _ | .unop _ _ | .load _ | .changeType _ | .convert _ _ | .sliceToArrayPointer _
+  | .extract _ _ | .fieldAddr _ _ _ | .field _ _ _ | .indexAddr _ _ _ | .index _ _ | .slice _ _ _ _ _
+  | .makeSlice _ _ | .makeInterface _ => true
+  | _ => false
+
+/-- the phi operand can be evaluated when all registers below `defd` are defined -/
+def opndSafe (c : SCtx) (defd : Nat) (ty : Nat) : Opnd → Bool
+  | .reg id => id < defd
+  | .cint _ _ | .cbool _ | .cstr _ | .nil _ | .global _ | .fn _ => true
+  | .zero _ => (c.prog.zeros ty).isSome
+  | _ => false
+
+def phisOk (c : SCtx) (bi defd : Nat) : List Instr → Bool
+  | [] => true
+  | ph :: phs =>
+    (match ph.op with
+     | .phi es =>
+       (match phiEdge bi es with
+        | some o => opndSafe c defd ph.ty o
+        | none => false)
+     | _ => false) && phisOk c bi defd phs
+
+/-- block `t` can be entered from block `bi` -/
+def targetOk (c : SCtx) (bi defd t : Nat) : Bool :=
+  match c.f.blocks[t]? with
+  | some tb => phisOk c bi defd (splitPhis tb.instrs).1
+  | none => false
+
+/-- `defd`: all registers below it have been written by the preceding instructions of the block -/
+def sBlockOk (c : SCtx) (al : AllowedSites) (bi : Nat) : List Instr → Nat → Bool
+  | [], _ => true
+  | i :: is, defd =>
+    sInstrOk c al i &&
+    (match i.op with
+     | .if cnd t e => !c.lab cnd || (targetOk c bi defd t && targetOk c bi defd e)
+     | _ => true) &&
+    sBlockOk c al bi is (if immDef i.op then max defd (i.id + 1) else defd)
+
+def sBlocksOk (c : SCtx) (al : AllowedSites) : List Block → Nat → Bool
+  | [], _ => true
+  | b :: bs, bi => sBlockOk c al bi b.instrs 0 && sBlocksOk c al bs (bi + 1)
+
+def sFuncOk (prog : Program) (hints : List FuncHints) (al : AllowedSites) (f : Func) (h : FuncHints) : Bool :=
+  sBlocksOk { prog := prog, hints := hints, f := f, h := h, hi := h.secretRegs ||| f.weakRegs } al f.blocks 0
+
 def ctFuncOk (prog : Program) (hints : List FuncHints) (al : AllowedSites) (checked : Nat) (f : Func) (h : FuncHints) : Bool :=
   paramsKindsOk prog f.params && resultsKindsOk prog f.results f.resultTys && f.freeVars.isEmpty
-  && ctBlocksOk prog hints al checked f h f.blocks
+  && ctBlocksOk prog hints al checked f h f.blocks && sFuncOk prog hints al f h
 
 def ctFuncsOk (prog : Program) (hints : List FuncHints) (al : AllowedSites) (checked : Nat) : List Func → List FuncHints → Nat → Bool
   | [], _, _ => true
